@@ -343,6 +343,14 @@ func runRegistry(w *World, rs *RunSpec) {
 			if n > 0 {
 				rr := regRR{pool: p, n: n, seq: q.seq}
 				for i := 0; i < 2*n; i++ {
+					if len(rg.rr)%2 == 1 {
+						// the usual guard: asking whether the pool is ready is a
+						// query, it must not take a turn
+						fresh(p).Ready()
+						if ch := held[p]; ch != nil {
+							ch.Ready()
+						}
+					}
 					got, _ := route(p, 99)
 					rr.picks = append(rr.picks, got)
 				}
